@@ -500,7 +500,13 @@ def verify_unit(world, func, ct, receiver=None, unit_name=None, setup=None, max_
                 if not guard_live[cl.guard]:
                     stats["trivial_clauses"] = stats.get("trivial_clauses", 0) + 1
                     continue  # implies(false, ...) on this path
-            goal = eval_bool(I, cl.text, env2, heap1, heap0)
+            try:
+                goal = eval_bool(I, cl.text, env2, heap1, heap0)
+            except RaiseSig as r:
+                # the clause itself cannot be evaluated in this final state (a key it reads is gone, an attribute is missing):
+                # it does not hold
+                goal = z3.BoolVal(False)
+                ctx.note(f"evaluating the clause raises {r.exc.cls.name}")
             check_goal(I, goal, cl.id, cl.tag, unit_name)
         for k, fd in ct.fresh.items():
             if okey in fd.get("outcomes", ["normal"]) and k in env2 and isinstance(env2[k], Obj):
